@@ -209,6 +209,114 @@ def writePriorityUpdate (sid : Nat) (priority : List Nat) : Except WErr (List Na
 def writeRawFrame (t fl sid : Nat) (payload : List Nat) : Except WErr (List Nat) :=
   frameBytes t fl sid payload
 
+/-! ## The write buffer over sequences of calls on ONE Framer
+
+`Framer.wbuf` is reused by every Write method: `startWrite` truncates it (`f.wbuf[:0]`) and writes
+the header with a zero length, the method appends, `endWrite` patches the length and hands the whole
+buffer to `w.Write`. A method that fails AFTER `startWrite` (WriteHeaders: invalid StreamDep,
+WritePushPromise: invalid PromiseID, `endWrite`: ErrFrameTooLarge) leaves a partial frame in the
+buffer. `runCall wbuf c` is the call `c` on a Framer whose buffer currently holds `wbuf`, following
+the Go statement order; `Proofs.C06.runCall_result` shows the result never depends on `wbuf`. -/
+
+/-- the arguments of one `Framer.Write*` call. -/
+inductive Call where
+  | data (sid : Nat) (endStream : Bool) (data : List Nat) (pad : Option (List Nat))
+  | headers (sid : Nat) (frag : List Nat) (endStream endHeaders : Bool) (padLen : Nat) (prio : PriorityParam)
+  | priority (sid : Nat) (p : PriorityParam)
+  | rstStream (sid code : Nat)
+  | settings (ss : List (Nat × Nat))
+  | settingsAck
+  | ping (ack : Bool) (data : List Nat)
+  | goAway (maxSid code : Nat) (debug : List Nat)
+  | windowUpdate (sid incr : Nat)
+  | continuation (sid : Nat) (endHeaders : Bool) (frag : List Nat)
+  | pushPromise (sid promiseID : Nat) (frag : List Nat) (endHeaders : Bool) (padLen : Nat)
+  | priorityUpdate (sid : Nat) (priority : List Nat)
+  | raw (t fl sid : Nat) (payload : List Nat)
+
+/-- the call on a fresh Framer (the functions above). -/
+def Call.fresh : Call → Except WErr (List Nat)
+  | .data sid es d pad => writeData sid es d pad
+  | .headers sid frag es eh padLen prio => writeHeaders sid frag es eh padLen prio
+  | .priority sid p => writePriority sid p
+  | .rstStream sid code => writeRSTStream sid code
+  | .settings ss => writeSettings ss
+  | .settingsAck => writeSettingsAck
+  | .ping ack d => writePing ack d
+  | .goAway m c d => writeGoAway m c d
+  | .windowUpdate sid incr => writeWindowUpdate sid incr
+  | .continuation sid eh frag => writeContinuation sid eh frag
+  | .pushPromise sid pid frag eh padLen => writePushPromise sid pid frag eh padLen
+  | .priorityUpdate sid p => writePriorityUpdate sid p
+  | .raw t fl sid p => writeRawFrame t fl sid p
+
+/-- `startWrite`: `append(f.wbuf[:0], 0, 0, 0, type, flags, streamID…)` — the old content is dropped. -/
+def startWriteS (_wbuf : List Nat) (t fl sid : Nat) : List Nat :=
+  [0, 0, 0, t, fl, sid / 16777216 % 256, sid / 65536 % 256, sid / 256 % 256, sid % 256]
+
+/-- `endWrite`: result of the call and the buffer afterwards (on ErrFrameTooLarge nothing is
+written and the oversized partial frame stays in the buffer). -/
+def endWriteS (wbuf : List Nat) : Except WErr (List Nat) × List Nat :=
+  if wbuf.length - 9 ≥ 16777216 then (.error .frameTooLarge, wbuf)
+  else
+    let out := (wbuf.length - 9) / 65536 % 256 :: (wbuf.length - 9) / 256 % 256 :: (wbuf.length - 9) % 256 ::
+      wbuf.drop 3
+    (.ok out, out)
+
+/-- one call on a Framer whose write buffer holds `wbuf`: (result, buffer afterwards). -/
+def runCall (wbuf : List Nat) : Call → Except WErr (List Nat) × List Nat
+  | .data sid es d pad =>
+    if !validStreamID sid then (.error .streamID, wbuf)
+    else match pad with
+      | none => endWriteS (startWriteS wbuf frameData (b2n es flagEndStream) sid ++ d)
+      | some p =>
+        if p.length > 255 then (.error .padLength, wbuf)
+        else if p.any (· != 0) then (.error .padBytes, wbuf)
+        else endWriteS (startWriteS wbuf frameData (b2n es flagEndStream + flagPadded) sid ++ [p.length] ++ d ++ p)
+  | .headers sid frag es eh padLen prio =>
+    if !validStreamID sid then (.error .streamID, wbuf)
+    else
+      let fl := b2n (padLen != 0) flagPadded + b2n es flagEndStream + b2n eh flagEndHeaders + b2n (!prio.isZero) flagPriority
+      let w1 := startWriteS wbuf frameHeaders fl sid ++ (if padLen != 0 then [padLen] else [])
+      if !prio.isZero && !validStreamIDOrZero prio.streamDep then (.error .depStreamID, w1)   -- partial frame left
+      else endWriteS (w1 ++ (if !prio.isZero then prioBytes prio else []) ++ frag ++ List.replicate padLen 0)
+  | .priority sid p =>
+    if !validStreamID sid then (.error .streamID, wbuf)
+    else if !validStreamIDOrZero p.streamDep then (.error .depStreamID, wbuf)
+    else endWriteS (startWriteS wbuf framePriority 0 sid ++ prioBytes p)
+  | .rstStream sid code =>
+    if !validStreamID sid then (.error .streamID, wbuf)
+    else endWriteS (startWriteS wbuf frameRSTStream 0 sid ++ be32 code)
+  | .settings ss => endWriteS (startWriteS wbuf frameSettings 0 0 ++ settingsBytes ss)
+  | .settingsAck => endWriteS (startWriteS wbuf frameSettings flagAck 0)
+  | .ping ack d => endWriteS (startWriteS wbuf framePing (b2n ack flagAck) 0 ++ d)
+  | .goAway m c d => endWriteS (startWriteS wbuf frameGoAway 0 0 ++ be32 (m % 2147483648) ++ be32 c ++ d)
+  | .windowUpdate sid incr =>
+    if incr < 1 || incr > 2147483647 then (.error .windowIncr, wbuf)
+    else endWriteS (startWriteS wbuf frameWindowUpdate 0 sid ++ be32 incr)
+  | .continuation sid eh frag =>
+    if !validStreamID sid then (.error .streamID, wbuf)
+    else endWriteS (startWriteS wbuf frameContinuation (b2n eh flagEndHeaders) sid ++ frag)
+  | .pushPromise sid pid frag eh padLen =>
+    if !validStreamID sid then (.error .streamID, wbuf)
+    else
+      let w1 := startWriteS wbuf framePushPromise (b2n (padLen != 0) flagPadded + b2n eh flagEndHeaders) sid
+                  ++ (if padLen != 0 then [padLen] else [])
+      if !validStreamID pid then (.error .streamID, w1)   -- partial frame left
+      else endWriteS (w1 ++ be32 pid ++ frag ++ List.replicate padLen 0)
+  | .priorityUpdate sid p =>
+    if !validStreamID sid then (.error .streamID, wbuf)
+    else endWriteS (startWriteS wbuf framePriorityUpdate 0 0 ++ be32 sid ++ p)
+  | .raw t fl sid p => endWriteS (startWriteS wbuf t fl sid ++ p)
+
+/-- a sequence of calls on one Framer: the result of every call, and the final buffer. -/
+def runCalls : List Nat → List Call → List (Except WErr (List Nat)) × List Nat
+  | wbuf, [] => ([], wbuf)
+  | wbuf, c :: cs =>
+    let r := runCall wbuf c
+    let rs := runCalls r.2 cs
+    (r.1 :: rs.1, rs.2)
+
 /-! ## Read side: the per-type parsers -/
 
 inductive RErr where
